@@ -125,4 +125,5 @@ class C10(IterCheck):
 class C11(IterCheck):
     pid = "C11"
     prop_module = "SigHook.Props.C11"
+    extra_modules = ("SigHook.Props.C11b",)
     profile = "close"
